@@ -11,7 +11,7 @@ from ..calls import callgraph, lexer_parsers
 from ..cfg import cfg_of
 from ..facts import conjuncts, registry_model
 from ..fold import RegexConst, fold_in_fn, fold_name, try_fold, Unknown
-from ..minieval import Evaluator, Obj, Unsupported
+from ..minieval import Evaluator, Obj, Raised, Unsupported
 from ..model import AnalysisError, Fn, ancestors, enclosing_fn, parent, text, walk_fn
 from ..tri import EndState, BodyResult, explore_body, truthy, T, F, N, U, X
 
@@ -613,28 +613,112 @@ def rule_rec(run, prog):
 
 def _validate_bounded(prog, key) -> bool:
     if key == ("registry.py::Registry.run_rules",):
-        fn = prog.fn(key[0])
-        # ret, read = result if isinstance(rule, Primary) else (False, 0)
-        for n in walk_fn(fn.node):
-            if isinstance(n, ast.Assign) and isinstance(n.value, ast.IfExp) and "isinstance(rule, Primary)" in text(n.value.test):
-                e = n.value.orelse
-                if isinstance(e, ast.Tuple) and isinstance(e.elts[0], ast.Constant) and e.elts[0].value is False:
-                    # recursive calls only under `if ret:`
-                    rec = [c for c in ast.walk(fn.node) if isinstance(c, ast.Call) and text(c.func) == "self.run_rules"]
-                    return bool(rec) and all(any(isinstance(a, ast.If) and text(a.test) == "ret" for a in ancestors(c)) for c in rec)
-        return False
+        return _validate_run_rules(prog)
     if key == ("context.py::Context.update",):
-        fn = prog.fn(key[0])
-        rec = [c for c in ast.walk(fn.node) if isinstance(c, ast.Call) and text(c.func) == "self.update"]
-        if len(rec) != 1:
-            return False
-        st = parent(rec[0])
-        blk = parent(st)
-        if not isinstance(blk, ast.If):
-            return False
-        body_txt = [text(s) for s in blk.body]
-        return "self.scope = self.scope.outer()" in body_txt and body_txt.index("self.scope = self.scope.outer()") < body_txt.index("self.update()")
+        return _validate_context_update(prog)
     return False
+
+
+def _validate_run_rules(prog) -> bool:
+    """The fact behind 'depth 2': for a rule object that is not a Primary, whatever its run() returns, run_rules makes
+    no recursive call and answers a falsy `ret`.  Decided by running the function's AST on the analyser's interpreter
+    with stub rule objects (class Check / Primary), a stub context and a recording stub for the recursive call."""
+    import collections
+    fn = prog.fn("registry.py::Registry.run_rules")
+    a = fn.node.args
+    params = [x.arg for x in a.posonlyargs + a.args]
+    if len(params) != 3 or a.vararg or a.kwarg:
+        return False
+    reg = prog.cls("Registry")
+    methods = {("Registry", n): m.node for n, m in reg.methods.items()}
+    recursion_seen_for_primary = False
+    try:
+        for cls_name in ("Check", "Primary"):
+            for result in ((True, 3), (False, 0), (True, 0), True, False, None, 1):
+                if cls_name == "Primary" and not isinstance(result, tuple):
+                    continue
+                rec: List[tuple] = []
+
+                def recorder(*args, **kw):
+                    rec.append(args)
+                    return (False, 0)
+                ev = Evaluator(methods, natives={("Registry", "run_rules"): recorder})
+                deps = collections.defaultdict(list)
+                deps["R"] = [lambda ctx: None]
+                deps["_rule"] = [lambda ctx: None]
+                me = Obj("Registry", dependencies=deps)
+                ctx = Obj("Context", scope=Obj("Scope", instructions=0), tkn_scope=0, history=[], sub=None)
+                robj = Obj(cls_name, name="R", _native={"run": (lambda res: (lambda *x: res))(result)})
+                try:
+                    r = ev.call_function(fn.node, {params[0]: me, params[1]: ctx, params[2]: (lambda o: (lambda *x: o))(robj)})
+                except (Raised, LookupError, TypeError, ValueError, AttributeError):
+                    if cls_name == "Check":
+                        return False             # the result of a Check is looked into: not (False, 0) whatever it returns
+                    continue
+                if cls_name == "Check":
+                    if rec or not (isinstance(r, tuple) and len(r) == 2 and not r[0]):
+                        return False
+                elif result[0] and rec:
+                    recursion_seen_for_primary = True
+        return recursion_seen_for_primary        # the stubs really reach the recursive calls (the experiment is not vacuous)
+    except Unsupported:
+        return _validate_run_rules_syntactic(fn)
+
+
+def _validate_run_rules_syntactic(fn) -> bool:
+    # ret, read = result if isinstance(rule, Primary) else (False, 0)   /   recursive calls only under `if ret:`
+    for n in walk_fn(fn.node):
+        if isinstance(n, ast.Assign) and isinstance(n.value, ast.IfExp) and "isinstance(rule, Primary)" in text(n.value.test):
+            e = n.value.orelse
+            if isinstance(e, ast.Tuple) and isinstance(e.elts[0], ast.Constant) and e.elts[0].value is False:
+                rec = [c for c in ast.walk(fn.node) if isinstance(c, ast.Call) and text(c.func) == "self.run_rules"]
+                return bool(rec) and all(any(isinstance(a, ast.If) and text(a.test) == "ret" for a in ancestors(c)) for c in rec)
+    return False
+
+
+def _validate_context_update(prog) -> bool:
+    """Every CFG path from the entry of Context.update to its recursive call passes an assignment of self.scope from
+    <scope>.outer() (the recursion climbs one scope per level), with no other store to self.scope in between."""
+    fn = prog.fn("context.py::Context.update")
+    g = cfg_of(fn)
+    me = fn.params[0] if fn.params else "self"
+    rec = [c for c in walk_fn(fn.node) if isinstance(c, ast.Call) and isinstance(c.func, ast.Attribute)
+           and c.func.attr == "update" and isinstance(c.func.value, ast.Name) and c.func.value.id == me]
+    if not rec:
+        return False
+    # local aliases:  parent = self.scope.outer()
+    outer_names = {t.id for n in walk_fn(fn.node) if isinstance(n, ast.Assign) and _is_outer_call(n.value, set())
+                   for t in n.targets if isinstance(t, ast.Name)}
+    climbs, other_stores = set(), set()
+    for n in walk_fn(fn.node):
+        if isinstance(n, (ast.Assign, ast.AnnAssign, ast.AugAssign)):
+            tg = n.targets if isinstance(n, ast.Assign) else [n.target]
+            if any(isinstance(t, ast.Attribute) and t.attr == "scope" and isinstance(t.value, ast.Name) and t.value.id == me
+                   for t0 in tg for t in ast.walk(t0)):
+                nid = g.nid(n)
+                if isinstance(n, ast.Assign) and _is_outer_call(n.value, outer_names):
+                    climbs.add(nid)
+                else:
+                    other_stores.add(nid)
+    if not climbs:
+        return False
+    for c in rec:
+        site = _cfg_node_of_expr(g, c)
+        if site is None:
+            return False
+        if g.can_reach(g.entry, site, avoid=climbs, follow_exc=False):
+            return False
+        # the last store to self.scope before the call is a climb
+        for o in other_stores:
+            if o is not None and g.can_reach(o, site, avoid=climbs, follow_exc=False):
+                return False
+    return True
+
+
+def _is_outer_call(e, outer_names) -> bool:
+    if isinstance(e, ast.Name):
+        return e.id in outer_names
+    return isinstance(e, ast.Call) and isinstance(e.func, ast.Attribute) and e.func.attr == "outer" and not e.args
 
 
 def _guarded_by_recursion_handler(prog, cg, comp: Set[str]) -> bool:
@@ -952,10 +1036,10 @@ def rule_helpers(run, prog):
             ev = Evaluator(methods)
             try:
                 r = ev.call_function(pk.node, {"self": Obj("Context", tokens=toks), "pos": pos})
-            except IndexError:
-                r = "IndexError"
             except Unsupported as e:
                 raise AnalysisError(f"Context.peek_token outside the evaluable subset: {e}")
+            except (Raised, LookupError, TypeError, ValueError, AttributeError) as e:
+                r = e.name if isinstance(e, Raised) else type(e).__name__
             n_eval += 1
             want = toks[pos] if 0 <= pos < n else None
             if r is not want and bad is None:
@@ -973,8 +1057,8 @@ def rule_helpers(run, prog):
                     r = ev.call_function(ck.node, {"self": Obj("Context", tokens=toks), "pos": pos, "value": val})
                 except Unsupported as e:
                     raise AnalysisError(f"Context.check_token outside the evaluable subset: {e}")
-                except Exception as e:          # IndexError etc.
-                    r = type(e).__name__
+                except (Raised, LookupError, TypeError, ValueError, AttributeError) as e:
+                    r = e.name if isinstance(e, Raised) else type(e).__name__
                 inside = 0 <= pos < n
                 if inside:
                     want = (toks[pos].type in val) if isinstance(val, (list, tuple)) else (toks[pos].type == val)
@@ -989,33 +1073,97 @@ def rule_helpers(run, prog):
     lm = {("Lexer", n): m.node for n, m in lx.methods.items()}
     rp = prog.method("Lexer", "raw_peek")
     run.require(rp is not None, "anchor vanished: Lexer.raw_peek")
+    lex_globals = _module_constants(prog, lx)
+
+    def lexer_at(ev, src, pos):
+        """A Lexer instance over *src* (built by interpreting Lexer.__init__ when that is possible, so that
+        attributes added by a refactoring - caches, counters - get their initial values) moved to *pos*."""
+        f = Obj("File", source=src, errors=Obj("Errors", _native={"add": lambda *a: None}))
+        me = Obj("Lexer")
+        init = lm.get(("Lexer", "__init__"))
+        try:
+            if init is None:
+                raise Unsupported("no __init__")
+            ev.invoke(init, [me, f], {})
+        except Unsupported:
+            me = Obj("Lexer", file=f)
+            me.__dict__["__line"] = me.__dict__["__line_pos"] = 1
+        me.__dict__["file"] = f
+        me.__dict__["__pos"] = pos
+        return me
+
+    def new_ev():
+        ev = Evaluator(lm)
+        ev.globals.update(lex_globals)
+        ev.exc_bases = lambda name: exc_bases(prog, name)
+        return ev
+
     bad = None
     for src in ("", "a", "ab?"):
         for pos in range(0, 4):
             for off in (0, 1, 2):
                 for col in (1, 2, 3):
-                    ev = Evaluator(lm)
-                    me = Obj("Lexer", file=Obj("File", source=src))
-                    me.__dict__["__pos"] = pos
+                    ev = new_ev()
                     try:
-                        r = ev.call_function(rp.node, {"self": me, "offset": off, "collect": col})
+                        r = ev.invoke(rp.node, [lexer_at(ev, src, pos)], {"offset": off, "collect": col})
                     except Unsupported as e:
                         raise AnalysisError(f"Lexer.raw_peek outside the evaluable subset: {e}")
+                    except (Raised, LookupError, TypeError, ValueError, AttributeError) as e:
+                        r = f"raises {type(e).__name__ if not isinstance(e, Raised) else e.name}"
                     want = src[pos + off: pos + off + col] if pos + off < len(src) else None
                     if r != want and bad is None:
                         bad = (src, pos, off, col, r, want)
     run.ob("R-5.6", f"{rp.key}::total", bad is None,
            f"raw_peek(source={bad[0]!r}, pos={bad[1]}, offset={bad[2]}, collect={bad[3]}) gives {bad[4]!r}, expected {bad[5]!r}" if bad else "ok",
            rp.node)
+    # Lexer.peek: None exactly when nothing can be read at pos + offset, otherwise (text, size) with
+    # 1 <= size <= characters left; never raises.  Checked on the analyser's interpreter (raw_peek is the
+    # repository's own, verified above) over sources made of plain, trigraph and digraph material.
     pk2 = prog.method("Lexer", "peek")
-    ends_none = False
-    if pk2 is not None:
-        last = pk2.node.body[-1]
-        ends_none = isinstance(last, ast.Return) and (last.value is None or (isinstance(last.value, ast.Constant) and last.value.value is None))
-        prev = pk2.node.body[-2] if len(pk2.node.body) > 1 else None
-        ends_none = ends_none and isinstance(prev, ast.If) and text(prev.test) == "size"
-    run.ob("R-5.6", "lexer/lexer.py::Lexer.peek::none-at-end", ends_none,
-           "Lexer.peek no longer returns None when nothing could be read", pk2.node if pk2 else lx.node)
+    run.require(pk2 is not None, "anchor vanished: Lexer.peek")
+    bad = None
+    n_eval = 0
+    for src in ("", "a", "ab", "?", "??", "??/", "??/x", "a??=", "<:", "<:a", "%:%:", "\\\n", "a\n"):
+        for pos in range(0, len(src) + 2):
+            for times in (1, 2, 3):
+                for off in (0, 1, 2):
+                    ev = new_ev()
+                    try:
+                        r = ev.invoke(pk2.node, [lexer_at(ev, src, pos)], {"times": times, "offset": off})
+                    except Unsupported as e:
+                        raise AnalysisError(f"Lexer.peek outside the evaluable subset: {e}")
+                    except (Raised, LookupError, TypeError, ValueError, AttributeError) as e:
+                        r = f"raises {type(e).__name__ if not isinstance(e, Raised) else e.name}"
+                    n_eval += 1
+                    left = len(src) - pos - off
+                    if left <= 0:
+                        good = r is None
+                        want = "None"
+                    else:
+                        good = isinstance(r, tuple) and len(r) == 2 and isinstance(r[0], str) and r[0] != "" \
+                            and isinstance(r[1], int) and not isinstance(r[1], bool) and 1 <= r[1] <= left
+                        want = f"(text, size) with 1 <= size <= {left}"
+                    if not good and bad is None:
+                        bad = (src, pos, times, off, r, want)
+    run.ob("R-5.6", "lexer/lexer.py::Lexer.peek::none-at-end", bad is None,
+           (f"Lexer.peek no longer returns None when nothing could be read (or reads past the end): "
+            f"peek(source={bad[0]!r}, pos={bad[1]}, times={bad[2]}, offset={bad[3]}) gives {bad[4]!r}, expected {bad[5]}")
+           if bad else "ok", pk2.node, evaluations=n_eval)
+
+
+def _module_constants(prog, cls) -> Dict[str, object]:
+    """Foldable module-level names (tables, strings) read by the methods of *cls*: the globals of the interpreter."""
+    out: Dict[str, object] = {}
+    mod = cls.mod
+    for m in cls.methods.values():
+        for n in ast.walk(m.node):
+            if isinstance(n, ast.Name) and isinstance(n.ctx, ast.Load) and n.id not in out \
+                    and (n.id in mod.assigns or n.id in mod.imports):
+                try:
+                    out[n.id] = fold_name(n.id, mod)
+                except (Unknown, RecursionError):
+                    pass
+    return out
 
 
 # =========================================================================== R-5.7
